@@ -139,6 +139,8 @@ func prepInfo(name string, p []string) (int, map[string]interface{}) {
 		return agent.COMMAND_FS, map[string]interface{}{"SubCommand": name[3:], "Arguments": b64(arg(0)) + ";" + b64(arg(1))}
 	case "fs.pwd":
 		return agent.COMMAND_FS, map[string]interface{}{"SubCommand": "pwd", "Arguments": ""}
+	case "fs.upload":
+		return agent.COMMAND_FS, map[string]interface{}{"SubCommand": "upload", "Arguments": b64(arg(0)) + ";" + b64(arg(1))}
 	case "proc.kill":
 		return agent.COMMAND_PROC, map[string]interface{}{"ProcCommand": strconv.Itoa(agent.DEMON_COMMAND_PROC_KILL), "Args": arg(0)}
 	case "proc.modules":
@@ -217,6 +219,9 @@ func runC02(c *Ctx) {
 		{"fs.mkdir", func() []string { return []string{texts()} }}, {"fs.download", func() []string { return []string{texts()} }},
 		{"fs.cat", func() []string { return []string{texts()} }}, {"fs.cp", func() []string { return []string{texts(), texts()} }},
 		{"fs.mv", func() []string { return []string{texts(), texts()} }}, {"fs.pwd", func() []string { return nil }},
+		{"fs.upload", func() []string {
+			return []string{gen.Pick(r, []string{"C:\\x.bin", "ü.txt", "a"}), gen.Pick(r, []string{"", "", "x", "content of the file", string(r.Bytes(1 + r.Intn(300)))})}
+		}},
 		{"proc.kill", func() []string { return []string{ints()} }}, {"proc.modules", func() []string { return []string{ints()} }},
 		{"proc.grep", func() []string { return []string{texts()} }}, {"job.list", func() []string { return nil }},
 		{"job.suspend", func() []string { return []string{ints()} }}, {"job.resume", func() []string { return []string{ints()} }},
